@@ -93,3 +93,50 @@ Definition sent_spec (cfg : config) (cs : list str) (t : node) (f : str) : Prop 
 Definition cfg_ok (cfg : config) : Prop := ~ In (s ".") (blacklist cfg).
 
 Definition valid_path (cs : list str) : Prop := Forall (fun c => valid_name c = true) cs.
+
+(* ---------------------------------------------------------------- several labels on one command line *)
+
+(* a command-line label at the level of the specification: `//root/...` (root by components, with the
+   entries found there) or any other label *)
+Inductive starget :=
+| SDots (root : list str) (kids : list (str * node))
+| SLabel (pkg name : str).
+
+Definition to_target (st : starget) : target :=
+  match st with
+  | SDots root kids => TDots (path_str root) (Dir kids)
+  | SLabel pkg name => TLabel pkg name
+  end.
+
+Definition starget_ok (st : starget) : Prop :=
+  match st with
+  | SDots root kids => valid_path root /\ wf (Dir kids) = true
+  | SLabel _ _ => True
+  end.
+
+(* the (package, name) pairs one label stands for: `//root/...` = :all of every package under root *)
+Definition lists (cfg : config) (st : starget) (l : str * str) : Prop :=
+  match st with
+  | SDots root kids => snd l = s "all"
+                       /\ exists chain, fst l = pkg_name (root ++ chain) /\ is_package cfg root (Dir kids) chain
+  | SLabel pkg name => l = (pkg, name)
+  end.
+
+(* ---------------------------------------------------------------- completion: containsPackage *)
+
+(* depth-first, order-free reading of containsPackage: the directory is not isExcluded and holds an entry
+   named like a BUILD file, or one of its sub-directories does (recursively) *)
+Fixpoint cp_spec (cfg : config) (dir : str) (n : node) {struct n} : bool :=
+  match n with
+  | File _ => false
+  | Dir cs => negb (is_excluded cfg dir)
+              && (existsb (fun nc => is_build_file cfg (fst nc)) cs
+                  || existsb (fun nc => cp_spec cfg (join dir (fst nc)) (snd nc)) cs)
+  end.
+
+(* declaratively: some directory below `root` (itself included), reached through directories none of which
+   isExcluded holds for, has an entry (of any kind) named like a BUILD file *)
+Definition cp_reach (cfg : config) (root : list str) (t : node) : Prop :=
+  exists chain kids b c,
+    at_path t chain (Dir kids) /\ In (b, c) kids /\ is_build_file cfg b = true
+    /\ forall pre suf, chain = pre ++ suf -> is_excluded cfg (path_str (root ++ pre)) = false.
